@@ -35,7 +35,10 @@ RULE = ("api_* configs: one run = one history of <= 30 insertion / "
         " refused) on a CNF or OPB under the allocation monitor; family "
         "config: one run = one family instance (scale tiny/small/realistic, "
         "CNF or OPB) plus a chain of <= 3 transformations, each step checked "
-        "for range, freshness and the documented variable count. "
+        "for range, freshness and the documented variable count; cli "
+        "config: one command line, scanned, and every '-T' step checked "
+        "against the documented count by running every prefix of the "
+        "command line under the same seed. "
         "Non-trivial: the run created at least one variable group after at "
         "least one clause was inserted, or applied a transformation; "
         "distinct = distinct case.")
